@@ -169,7 +169,8 @@ def h_xcopy(ctx, lid, targets, segments, inline_len, set_name="spc", stale_lengt
         # segment type, or supplied by the caller): the emitted length must still be the one that follows
         for i, sd in enumerate(sl):
             sd["descriptor_length"] = ctx.int("stale_len%d" % i, 16)
-    inline = ctx.bytes("inline", inline_len)
+    big = inline_len > 4096
+    inline = bytearray(b"\xc3" * inline_len) if big else ctx.bytes("inline", inline_len)
     want_t = [dict(t) for t in tl]
     want_s = [dict(s) for s in sl]
     cls = K.get_class(spec)
@@ -185,7 +186,14 @@ def h_xcopy(ctx, lid, targets, segments, inline_len, set_name="spc", stale_lengt
         want = P.xcopy(4, hdr, want_t, want_s, inline)
         c = cls(opcode, hdr["sequential_striped"], hdr["list_id_usage"], hdr["priority"], hdr["g_sense"], hdr["immed"],
                 hdr["list_identifier"], tl, sl, inline)
-    _cmp(ctx, "EXTENDED COPY LID%d" % lid, c.dataout, want)
+    if big:
+        # megabyte-sized inline data: compare the length, the header and descriptors, and the tail
+        ctx.check("parameter list has the standard's length (%d)" % len(want), len(c.dataout) == ctx.oracle(len(want)))
+        hdr = len(want) - inline_len
+        for i in list(range(hdr)) + [len(want) - 1]:
+            ctx.check("byte %d" % i, c.dataout[i] == ctx.oracle(want[i]))
+    else:
+        _cmp(ctx, "EXTENDED COPY LID%d" % lid, c.dataout, want)
     _pll(ctx, spec, c)
     ctx.check("service action in the CDB", L._extract(c.cdb, spec["sa"][0]) == ctx.oracle(spec["sa"][1]))
 
@@ -240,6 +248,10 @@ def obligations(tier):
         for il in ((0, 1, 9) if q else range(0, 10)):
             add("xcopy%d/two-targets-two-segments/inline=%d" % (lid, il), "h_xcopy", lid=lid,
                 targets=[[0, "naa5"], [1, "eui8"]], segments=[2, 0], inline_len=il)
+        if lid == 1:
+            add("xcopy1/inline=65539", "h_xcopy", lid=1, targets=[], segments=[2], inline_len=65539)
+        else:
+            add("xcopy4/inline=65535", "h_xcopy", lid=4, targets=[], segments=[2], inline_len=65535)
         if not q:
             add("xcopy%d/four-targets-four-segments" % lid, "h_xcopy", lid=lid,
                 targets=[[0, "naa5"], [1, "t10"], [3, "naa6"], [5, "naa3"]], segments=[2, 13, 0, 11], inline_len=3)
